@@ -1,4 +1,4 @@
-FIX_COMMITS = ['ee63c4e', '8e72bfe', 'fac3c39', '803947b', '012bab8', 'dbf4700', '19f97fb', '925775e', 'cbd12ec', 'f843f54', '7a5e3b3', '35d5997', 'bbada35', '867f25c', '1e6d046', '9e14f80', '7c4e0e1', 'ac89fd3', '40778ed', 'f2148c8', '76eaf85', '9bcb695']
+FIX_COMMITS = ['ee63c4e', '8e72bfe', 'fac3c39', '803947b', '012bab8', 'dbf4700', '19f97fb', '925775e', 'cbd12ec', 'f843f54', '7a5e3b3', '35d5997', 'bbada35', '867f25c', '1e6d046', '9e14f80', '7c4e0e1', 'ac89fd3', '40778ed', 'f2148c8', '76eaf85', '9bcb695', '52e6b5d']
 TODO = 'check not built yet in this revision (work in progress; see DESIGN.md section 7 for the planned solver-based check)'
 NOT_APPLICABLE = {('C%02d' % i): TODO for i in range(1, 21)}
 R_NOTE = ('R-model: floats are mathematical reals, float literals are the decimal rationals written in the source, '
